@@ -67,14 +67,16 @@ CLAIMED = {
              "breaks it); no call site in FourierFilter passes a swallowed keyword (decide). Oracle converts all 12 variants' outputs "
              "to (g, Q[S-1]) on the real code.", ref="8 (C09)",
              tech="Lean 4 definitional-unfolding theorems on translator output + call-binding facts + conversion oracle"),
- "C01": dict(text="Partial. Theorems on regenerated F_to_G/G_to_F for every N>=1, dr>0 on the matched grids r_j=j dr, Q_k=k pi/(N dr): "
-             "G_to_F(F_to_G f) = f and F_to_G(G_to_F G) = G for all data vanishing at both ends (DST-I orthogonality from a telescoping "
-             "cosine sum, trapezoid rule on uniform grids), and each direction separately returns the discrete closed-form partner "
-             "(sin(Q_k r_m) <-> delta_m/dr), which pins 2/pi to Q->r and the bare kernel to r->Q. 'To discretisation accuracy' for the "
-             "continuous closed-form family is not a theorem (no quadrature error bound): the oracle compares both directions with the "
-             "closed form A sqrt(pi) Q/(4 a^1.5) exp(-Q^2/4a) at 1e-9 of scale on grids where the trapezoid rule has converged; S<->g "
-             "round trips are checked by the oracle only.", ref="8 (C01)",
-             tech="Lean 4 theorems (DST orthogonality, Finset sums) on translator output + closed-form numerical sweep (partial)"),
+ "C01": dict(text="Partial. Theorems on regenerated F_to_G/G_to_F/S_to_g/g_to_S for every N>=1, dr>0 on the matched grids r_j=j dr, "
+             "Q_k=k pi/(N dr): G_to_F(F_to_G f) = f and F_to_G(G_to_F G) = G for all data vanishing at both ends (DST-I orthogonality from a "
+             "telescoping cosine sum, trapezoid rule on uniform grids); g_to_S(S_to_g S) = S and S_to_g(g_to_S g) = g for every rho>0 and all "
+             "data with the conventional value 1 at index 0 and at index N (Props/C01Sg: wrapper = conversion;core;conversion by rfl, "
+             "conversion refinements, values independent of the uncertainties handed on internally); each direction separately returns "
+             "the discrete closed-form partner (sin(Q_k r_m) <-> delta_m/dr), which pins 2/pi to Q->r and the bare kernel to r->Q. 'To "
+             "discretisation accuracy' for the continuous closed-form family is not a theorem (no quadrature error bound): the oracle "
+             "compares both directions with the closed form A sqrt(pi) Q/(4 a^1.5) exp(-Q^2/4a) at 1e-9 of scale on grids where the "
+             "trapezoid rule has converged (with and without accompanying uncertainties).", ref="8 (C01)",
+             tech="Lean 4 theorems (DST orthogonality, Finset sums, conversion refinements) on translator output + closed-form numerical sweep (partial)"),
  "C15": dict(text="Theorems on regenerated _low_x_correction and its call sites: the code adds codeTerm(lorch,Qmin,S(Qmin),Qmax,r) "
              "(refinement), which equals int_0^Qmin Q[S_lin(Q)-1] w(Q) sin(Qr) dQ for S_lin = S(Qmin) Q/Qmin, plain and Lorch-damped "
              "(FTC with explicit antiderivatives; r != 0, r != +-a); zero for Qmin=0; zero at r=0; a function of (Qmin,S(Qmin),Qmax) "
